@@ -29,7 +29,8 @@ def strategy(draw, tier="quick"):
     c = {
         "mixture": mix, "model": draw(gen.model), "T": t, "x": draw(gen.mid_fraction()), "basis": draw(gen.basis),
         "perm": draw(gen.permeate(t)), "precision": draw(gen.precision),
-        "membrane": draw(gen.membrane(4)), "steps": steps, "removal": draw(gen.loguniform(1e-4, 0.2)),
+        "membrane": draw(gen.membrane(4)), "steps": steps, "removal": draw(gen.loguniform(1e-8, 0.2)),
+        "ramp": draw(st.sampled_from([15.0, 1.0, 0.02, 1e-3])),
         "area": draw(gen.loguniform(1e-3, 1e3)), "amount": draw(gen.loguniform(1e-3, 1e3)),
         "program": draw(st.booleans()),
     }
@@ -112,7 +113,8 @@ def _body(case, mix, pv, comp, t, perm, prec, mdl, w, classes):
         if kind == "noniso-program":
             if not case["program"]:
                 continue
-            spec["program"] = {"type": "polynomial", "coefficients": [t, (min(t + 15.0, 400.0) - t) / (dt * max(case["steps"], 1))]}
+            ramp = case.get("ramp", 15.0)  # total temperature change over the run: fast ... very slow programmes
+            spec["program"] = {"type": "polynomial", "coefficients": [t, (min(t + ramp, 400.0) - t) / (dt * max(case["steps"], 1))]}
         conditions = build.conditions(spec)
         if kind == "iso":
             model = call(pv.ideal_isothermal_process, case["steps"], dt, conditions, prec, mdl)
@@ -129,6 +131,11 @@ def _body(case, mix, pv, comp, t, perm, prec, mdl, w, classes):
                             model.permeances[k][0], model.permeances[k][1])
             require(not is_raised(alone), "standalone flux calculation at the reported state of step %d raised %r", k, alone)
             _same_fluxes(jk, alone, "step %d of the %s process (%s)" % (k, kind, mdl))
+            # ideal models: the same membrane answers the standalone question at the reported temperature and composition
+            own = _solver(pv, case, model.feed_compositions[k], model.feed_temperature[k])
+            if not is_raised(own):
+                _same_fluxes(jk, own, "step %d of the %s process (%s) vs the membrane-based standalone calculation at the reported "
+                                      "temperature %r" % (k, kind, mdl, float(model.feed_temperature[k])))
             yk = float(jk[0]) / (float(jk[0]) + float(jk[1]))
             require(abs(model.permeate_composition[k].p - yk) <= TOL, "step %d permeate composition %r != flux1/(flux1+flux2) = %r",
                     k, model.permeate_composition[k].p, yk)
@@ -146,7 +153,65 @@ def _body(case, mix, pv, comp, t, perm, prec, mdl, w, classes):
     return {"nontrivial": differs, "classes": classes}
 
 
+def check_nonideal(case):
+    """Every step of a non-ideal process equals a standalone flux calculation at its reported state; started with the
+    membrane's own permeances, step 0 equals the membrane-based standalone calculation."""
+    from .. import procs
+
+    s = procs.setup(case)
+    mix, pv = s.mix, s.pv
+    kg = build.KG
+    p0 = tuple(float(s.mem.get_permeance(case["T"], c).convert(kg, c).value) for c in (mix.first_component, mix.second_component))
+    s.initial = (build.permeance(p0[0]), build.permeance(p0[1]))
+    case = dict(case, initial={"p1": p0[0], "p2": p0[1], "units": kg})
+    classes = procs.classes_of(case)
+    try:
+        with Trace(pv, cap=60000, keep=False):
+            dt = procs.step_length(case, s)
+            model = procs.run(case, s, dt)
+            if is_raised(model):
+                raise Discard("model raised %s" % model.type)
+            ref = _solver(pv, case, build.composition(s.x, s.basis), case["T"])
+            if is_raised(ref):
+                raise Discard("reference flux calculation raised %s" % ref.type)
+            _same_fluxes(model.partial_fluxes[0], ref, "step 0 of the %s process started with the membrane's permeances" % case["kind"])
+            for k in range(len(model.partial_fluxes)):
+                jk = model.partial_fluxes[k]
+                alone = _solver(pv, case, model.feed_compositions[k], float(model.feed_temperature[k]), model.permeances[k][0], model.permeances[k][1])
+                require(not is_raised(alone), "standalone flux calculation at the reported state of step %d raised %r", k, alone)
+                _same_fluxes(jk, alone, "step %d of the %s process (%s)" % (k, case["kind"], case["model"]))
+                yk = float(jk[0]) / (float(jk[0]) + float(jk[1]))
+                require(abs(model.permeate_composition[k].p - yk) <= TOL, "step %d permeate composition %r != flux1/(flux1+flux2) = %r",
+                        k, model.permeate_composition[k].p, yk)
+                wk = model.feed_compositions[k]
+                if 0.0 < yk < 1.0 and 0.0 < wk.p < 1.0:
+                    sfk = sep_factor(yk, wk.p)
+                    require(relerr(model.get_separation_factor[k], sfk) <= 1e-9, "step %d separation factor %r != %r", k,
+                            float(model.get_separation_factor[k]), sfk)
+            other = _solver(pv, case, build.composition(s.x, s.basis), case["T"], model="UNIQUAC" if case["model"] == "NRTL" else "NRTL")
+    except EvaluationCap:
+        raise Discard("evaluation cap reached (termination is C10's subject)")
+    differs = (not is_raised(other)) and max(relerr(other[0], ref[0]), relerr(other[1], ref[1])) > 1e-6
+    return {"nontrivial": differs and case["steps"] >= 2, "classes": classes + ["models-differ" if differs else "models-agree"]}
+
+
+def _nonideal_strategy():
+    from .. import procs
+
+    @st.composite
+    def s(draw):
+        c = draw(procs.process_case(kinds=("nonideal-iso", "nonideal-noniso"), removal=(1e-4, 0.1), max_steps=5))
+        # both parameter sets, so that a silent fall-back to the default model is visible
+        if "builtin" not in c["mixture"] and (c["mixture"].get("uq") is None or c["mixture"].get("nrtl") is None):
+            c["mixture"] = draw(gen.mixture(("NRTL", "UNIQUAC"), 0.5))
+        return c
+
+    return s()
+
+
 PARTS = [
     Part("ideal-entry-points", lambda tier: strategy(tier), check, {"quick": 3000, "thorough": 100000},
          floor={"quick": 300, "thorough": 10000}, max_discard=0.7),
+    Part("non-ideal-steps", lambda tier: _nonideal_strategy(), check_nonideal, {"quick": 200, "thorough": 6000},
+         floor={"quick": 20, "thorough": 500}, shrink={"quick": False, "thorough": True}, max_discard=0.7),
 ]
